@@ -23,9 +23,9 @@ func init() {
 			"cases in which a step / sign neuron receives a sum within 1e-9 of its discontinuity are skipped (counted)"},
 		Cases: func(tier string) int {
 			if tier == "quick" {
-				return 128
+				return 3200
 			}
-			return 1600
+			return 32000
 		},
 		Run:      runC12,
 		Required: []string{"solver.std_forward", "solver.std_recursive", "solver.fast_forward", "solver.fast_recursive", "solver.fast_relax", "nets.with_bias_that_matters", "nets.via_genesis", "nets.depth_ge_3"},
